@@ -38,6 +38,7 @@ type fakeConn struct {
 func (c *fakeConn) RemotePeer() peer.ID { return c.remote }
 
 type fakeStream struct {
+	wdl time.Time // the first write deadline set on the stream
 	network.Stream
 	mu       sync.Mutex
 	proto    protocol.ID
@@ -79,7 +80,14 @@ func (s *fakeStream) Close() error {
 }
 func (s *fakeStream) SetDeadline(time.Time) error      { return nil }
 func (s *fakeStream) SetReadDeadline(time.Time) error  { return nil }
-func (s *fakeStream) SetWriteDeadline(time.Time) error { return nil }
+func (s *fakeStream) SetWriteDeadline(t time.Time) error {
+	s.mu.Lock()
+	if !t.IsZero() && s.wdl.IsZero() {
+		s.wdl = t
+	}
+	s.mu.Unlock()
+	return nil
+}
 func (s *fakeStream) Protocol() protocol.ID            { return s.proto }
 func (s *fakeStream) Conn() network.Conn               { return s.conn }
 
@@ -357,7 +365,10 @@ func runNet(dir string, seed uint64, tier string) {
 		if !c.closeOK {
 			stream.closeErr = errClose
 		}
-		ctx, cancel := context.WithCancel(context.Background())
+		// the caller's context ends before the default time allowed for a write (10 s): a write must not be
+		// allowed to outlive the context it was sent under
+		ctxDeadline := time.Now().Add(8 * time.Second)
+		ctx, cancel := context.WithDeadline(context.Background(), ctxDeadline)
 		defer cancel()
 		h := &fakeHost{self: peerOf(1), to: peerOf(2), opens: c.opens, cancelAt: c.cancel, cancel: cancel, stream: stream}
 		backoff := time.Millisecond
@@ -393,6 +404,12 @@ func runNet(dir string, seed uint64, tier string) {
 			return false
 		}
 		elapsed := time.Since(start)
+		stream.mu.Lock()
+		wdl := stream.wdl
+		stream.mu.Unlock()
+		if !wdl.IsZero() && wdl.After(ctxDeadline.Add(50*time.Millisecond)) {
+			fail(c.id, "write-outlives-context", fmt.Sprintf("the write of a message was given until %s after the deadline of the context it was sent under: a stalled write keeps the sender for that long after its context is done", wdl.Sub(ctxDeadline).Round(time.Millisecond)), j.label, nil, nil)
+		}
 		h.mu.Lock()
 		c.attempts = h.calls
 		wrongTo := h.wrongTo
